@@ -112,6 +112,27 @@ CHECKS = {
         "runtime oracle: independent specification-following writers vs the real readers",
         "4/C03",
     ),
+    "C08": (
+        "fault_enumeration",
+        "Faults are enumerated on the real dump_one / dump_many / write_input: every subset of the declared required attributes "
+        "cleared x target {absent, pre-existing}; every prepare_dump rejection reason x allow_changes; faulty frame at index 0/1/"
+        "middle/last as list and generator, empty sequences; unknown and unsupported formats; an exception (OSError/ValueError/"
+        "RuntimeError) injected at the k-th write of the output file for every k (thorough) through a proxy bound to "
+        "iodata.api.open. Observed: exception class, bytes/existence of the target before and after, audit events on the target "
+        "before a pre-flight rejection, close() of the file and open descriptors.",
+        "fault injection at every write + audit/file/descriptor monitors",
+        "4/C08",
+    ),
+    "C09": (
+        "exploration",
+        "Deep snapshots (attrs fields, derived properties, array bytes/dtype/shape/writeable flag, dict and list contents, member "
+        "identities) of the arguments of the real dump_one / dump_many / write_input before and after each call, over objects of "
+        "all 13 formats incl. QCSchema corpus objects with nested dictionaries and objects needing conversion x allow_changes; "
+        "each dump twice (bytes compared); identity of the return value without allow_changes; with it, conversions must be "
+        "announced and physically equivalent (R.gto basis functions, density matrices, nelec, spinpol, charge).",
+        "deep-snapshot monitor around API calls + reference evaluator for converted objects",
+        "4/C09",
+    ),
 }
 
 NOT_YET = "check not built yet (work in progress; see DESIGN.md section 5b)"
